@@ -1,6 +1,7 @@
 package mc
 
 import (
+	"time"
 	"fmt"
 	"strings"
 	"sync"
@@ -54,6 +55,10 @@ type MQ struct {
 	log           []MQRecord
 	closed        bool
 	closedCB      func(error)
+	// DuringClose, if set, is run (once, on a goroutine of its own) when
+	// Close is entered: the adapter's listener may still be delivering a
+	// message while the client is being closed.
+	DuringClose func()
 	epoch         int
 	canon         func(string) string
 	now           func() int
@@ -85,6 +90,19 @@ func (m *MQ) Connect() error {
 // Close drops all subscriptions and pending requests without completing
 // them, like the NATS adapter does.
 func (m *MQ) Close() {
+	// messages the listener still delivers while the client is closing
+	m.mu.Lock()
+	during := m.DuringClose
+	m.DuringClose = nil
+	m.mu.Unlock()
+	if during != nil {
+		done := make(chan struct{})
+		go func() { defer close(done); during() }()
+		select {
+		case <-done:
+		case <-time.After(2 * time.Second): // blocked on a lock held by the closing side: let Close go on
+		}
+	}
 	m.cbMu.Lock()
 	defer m.cbMu.Unlock()
 	m.mu.Lock()
